@@ -11,6 +11,7 @@ use verif_harness::{props, report};
 
 #[cfg(tiny_http_verif)]
 fn main() {
+    verif_harness::infra::install_discard_logger();
     let args: Vec<String> = std::env::args().skip(1).collect();
     if args.is_empty() {
         eprintln!("usage: check <property|list> [--tier quick|thorough] [--replay file]");
